@@ -147,18 +147,22 @@ func dnsBitmapString(b bpfDomainRouting) string {
 	return "{" + strings.Join(p, " ") + "}"
 }
 
-// writerClass: which path wrote the address last (class of the C10 rules).
+// writerClass: which path touched the address last (class of the C10 rules).
 func (k *dnsKernMap) writerClass(key [4]uint32) string {
 	w := k.lastWriter[key]
+	op := "update"
+	if strings.HasPrefix(w, "delete") {
+		op = "delete"
+	}
 	switch {
 	case w == "":
 		return "never-written"
 	case strings.Contains(w, "async-update-worker"):
-		return "async-update-worker"
+		return "async-" + op
 	case strings.Contains(w, "restore"):
-		return "reload-restore"
+		return "reload-clear"
 	}
-	return "synchronous-path"
+	return "sync-" + op
 }
 
 func (k *dnsKernMap) noteWriter(keys [][4]uint32, op string) {
@@ -266,6 +270,11 @@ func (w *dnsWorld) c10ReloadRestore() {
 		s.Failf("harness-dns", "reload: %v", err)
 		return
 	}
+	// The old generation is retired first: its janitor / update worker share the kernel
+	// table with the new generation, and the statement is not about two generations
+	// writing the table at the same time.
+	w.track.frozen = true
+	_ = old.Close()
 	// new generation's core (clearReloadDomainRoutingMap + fresh tracker)
 	for k := range w.kern.m {
 		delete(w.kern.m, k)
@@ -289,7 +298,6 @@ func (w *dnsWorld) c10ReloadRestore() {
 	w.track.frozen = false
 	w.track.scan()
 	w.track.restoring = false
-	_ = old.Close()
 }
 
 var _ = netip.Addr{}
